@@ -74,6 +74,28 @@ var seatedInRe = regexp.MustCompile(`"is_in":(true|false)`)
 
 func maskSeatedIn(norm string) string { return seatedInRe.ReplaceAllString(norm, `"is_in":"-"`) }
 
+// gateOf renders the state of a table's open-game gate (game count, participants, who has
+// signalled), or "not-found".
+func gateOf(m pokertable.Manager, id string) string {
+	te, err := m.GetTableEngine(id)
+	if err != nil || te == nil {
+		return "not-found"
+	}
+	g := pokertable.VerifOpenGameManager(te)
+	if g == nil {
+		return "no-gate"
+	}
+	st := g.GetState()
+	ks := []string{}
+	for pid, p := range st.Participants {
+		if p != nil {
+			ks = append(ks, fmt.Sprintf("%s:%d:%v", pid, p.Index, p.IsReady))
+		}
+	}
+	sort.Strings(ks)
+	return fmt.Sprintf("gc=%d [%s]", st.GameCount, strings.Join(ks, " "))
+}
+
 type mtable struct {
 	id     string
 	seats  int
@@ -200,8 +222,9 @@ func c17Body(c *run.Ctx) {
 		case 5:
 			name = "SetUpTableGame"
 			// an empty participant set never completes: no hand is started by this sequence
-			ea = mA.SetUpTableGame(id, 1, map[string]int{})
-			eb = viaEngine(func(te pokertable.TableEngine) error { te.SetUpTableGame(1, map[string]int{}); return nil })
+			gcN := c.Ch.Int("setup.gc", 1, 4)
+			ea = mA.SetUpTableGame(id, gcN, map[string]int{})
+			eb = viaEngine(func(te pokertable.TableEngine) error { te.SetUpTableGame(gcN, map[string]int{}); return nil })
 			groups["table"] = true
 		case 6:
 			name = "UpdateTablePlayers"
@@ -404,6 +427,14 @@ func c17Body(c *run.Ctx) {
 		}
 		after := snapshotAll(mA)
 		afterB := snapshotAll(mB)
+		// the open-game gate is engine state the table JSON does not show: a set-up (also one that
+		// names nobody: it withdraws whatever was pending) and a settlement signal must leave
+		// the gates of the two twins in the same state
+		if name != "Reset" {
+			if ga, gb := gateOf(mA, id), gateOf(mB, id); ga != gb {
+				c.Failf("C17.effect-differs."+name, "%s on table %s: the open-game gate differs from the twin driven through the engine:\nmanager %s\nengine  %s", name, id, ga, gb)
+			}
+		}
 		for _, t := range tables {
 			if name == "Reset" {
 				if after[t.id] != "not-found" {
